@@ -188,7 +188,7 @@ def do_check(a, prop, spec, tier, S, wargs, errdir):
     nruns = a.runs if a.runs is not None else tier["runs"]
     wall_cap = a.wall if a.wall is not None else tier["wall"]
     hashseeds = list(tier["hashseeds"])
-    jobs = max(1, a.jobs)
+    jobs = max(1, min(a.jobs, tier.get("jobs", a.jobs)))
     if jobs < len(hashseeds):
         hashseeds = hashseeds[:jobs]
     nverify = min(tier["verify"], nruns)
